@@ -17,7 +17,7 @@ ASSUMPTIONS = ['one TCP segment written while the server is blocked in read() is
                'Date header value is checked for IMF-fixdate shape and closeness to the wall clock, then masked for the byte comparison',
                'TLS connections and the WebSocket hand-off are outside this check']
 
-TARGETS = ['/fixed', '/nope', '/cors', '/echo', '/empty', '/panic', '/own', '/fixed/x?q=1']
+TARGETS = ['/fixed', '/nope', '/cors', '/wild', '/echo', '/empty', '/panic', '/own', '/fixed/x?q=1']
 IMF = re.compile(rb'^(Mon|Tue|Wed|Thu|Fri|Sat|Sun), \d{2} (Jan|Feb|Mar|Apr|May|Jun|Jul|Aug|Sep|Oct|Nov|Dec) \d{4} \d{2}:\d{2}:\d{2} GMT$')
 
 
@@ -71,10 +71,12 @@ def expected(reqs, idle_after):
         else:
             e['code'] = 200 if routed else 404
             if routed:
-                e['body'] = {'/fixed': b'hello', '/fixed/x': b'hello', '/cors': b'c', '/echo': r['body'] or b'', '/empty': b'',
+                e['body'] = {'/fixed': b'hello', '/fixed/x': b'hello', '/cors': b'c', '/wild': b'w', '/echo': r['body'] or b'', '/empty': b'',
                              '/own': b'own'}[path]
         if routed and path == '/cors' and True:
             e['cors'] = True
+        if routed and path == '/wild':
+            e['cors'] = 'wild'      # Cors::wildcard(): origin and headers "*", no Allow-Methods line
         out.append(e)
         if not r['ka']:
             return out, True
@@ -145,7 +147,10 @@ def check_property(exp, exp_closed, got, stray, err, closed, now):
             return 'headers', 'response %d (%d) has no Server header' % (k, g['code'])
         if 'body' in e and g['body'] != e['body']:
             return 'body', 'response %d body differs' % k
-        if e.get('cors') and not {b'access-control-allow-origin', b'access-control-allow-methods', b'access-control-allow-headers'} <= set(names):
+        if e.get('cors') == 'wild':
+            if not {b'access-control-allow-origin', b'access-control-allow-headers'} <= set(names):
+                return 'cors', 'response %d lacks the wildcard CORS headers' % k
+        elif e.get('cors') and not {b'access-control-allow-origin', b'access-control-allow-methods', b'access-control-allow-headers'} <= set(names):
             return 'cors', 'response %d lacks the route\'s CORS headers' % k
         last = k == len(exp) - 1
         if (not last or not exp_closed) and not g['delimited']:
